@@ -465,6 +465,22 @@ def replay_purity(index, ob, seed, saved=None):
     if tgt("plain_no_page_border", shared).rtf_encode() != base["plain_no_page_border"]:
         return _r(True, input={"history": ["encode multi-section document whose last RTFBody is shared", "encode plain document using that RTFBody"]},
                   observed="output differs from a fresh interpreter")
+    # 3b. one component object used for two documents of different column counts: the second document must not see widths the first one computed
+    body = rtf.RTFBody()
+    hdr = rtf.RTFColumnHeader(text=["A", "B"])
+    before = (body.col_rel_width, hdr.col_rel_width)
+    rtf.RTFDocument(df=pl.DataFrame({"a": [1], "b": [2]}), rtf_body=body, rtf_column_header=[hdr])
+    if (body.col_rel_width, hdr.col_rel_width) != before:
+        return _r(True, input={"history": ["body = RTFBody(); hdr = RTFColumnHeader(text=['A','B'])", "RTFDocument(2-column frame, rtf_body=body, rtf_column_header=[hdr])"]},
+                  observed=f"constructor wrote into the caller's components: body.col_rel_width={body.col_rel_width}, header.col_rel_width={hdr.col_rel_width}")
+    try:
+        got = rtf.RTFDocument(df=pl.DataFrame({"a": [1], "b": [2], "c": [3]}), rtf_body=body).rtf_encode()
+        want = rtf.RTFDocument(df=pl.DataFrame({"a": [1], "b": [2], "c": [3]}), rtf_body=rtf.RTFBody()).rtf_encode()
+        if got != want:
+            return _r(True, input={"history": ["RTFDocument(2-column frame, rtf_body=body)", "RTFDocument(3-column frame, rtf_body=body).rtf_encode()"]},
+                      observed="output differs from the same document built with a fresh RTFBody()")
+    except Exception as e:
+        return _r(True, input={"history": ["RTFDocument(2-column frame, rtf_body=body)", "RTFDocument(3-column frame, rtf_body=body).rtf_encode()"]}, observed=type(e).__name__)
     # 4. the caller's DataFrame
     df = pl.DataFrame({"g": ["A", "A", "B"], "v": [1, 2, 3]})
     snap = df.clone()
